@@ -295,7 +295,11 @@ class GeoIndex:
         ])
 
         # Return the distances in kilometers
-        distances /= 1000.
+        if self.metric == "haversine":
+            # The tree works on the unit sphere (angles in radians)
+            distances *= earth_radius / 1000.
+        else:
+            distances /= 1000.
 
         if self.shuffler is None:
             return pairs, distances
